@@ -11,19 +11,22 @@ that drops styled blank cells must be REFUTED.  MC_Channels*.cfg: the intended c
 writes only legal XML; the configuration of the tree before commit 5eeb38a (attributes written escaped, read raw)
 and a writer that does not escape must be REFUTED.
 Conformance: harness/src/bin/resave.rs drives load -> (save -> load) x 3 in memory, a second save of the unchanged
-workbook, and the same after one single-cell edit, for every corpus file the library can read, for workbooks
+workbook, and again (save -> load) x 3 after each single-cell edit of the case (random cells and values; thorough: one
+edit per cell class - text, number, boolean, error, rich text, blank, formula, master / member of a shared formula,
+cell with a hyperlink), for every corpus file the library can read (the five largest only in the thorough tier), for workbooks
 generated through the public API with XML-special / non-ASCII text in every text channel, and for foreign files built
 here from the behaviours TLC prints for MC_Resave_replay.cfg.  Every generation logs the full projection through
 public getters; pydec/resave_view.py adds the independent decoder's view of the bytes (part list, string inventory).
 spec/Trace_Resave.tla judges every event with the operators of Resave.tla.
 """
-import glob, io, json, os, re, struct, time, zipfile
+import glob, hashlib, io, json, os, re, struct, time, zipfile
 from concurrent.futures import ThreadPoolExecutor
 import vlib
 from pydec import resave_view
 
-BIG_CORPUS = {"aaa_large.xlsx", "issue_216.xlsx", "issue_233.xlsx", "issue_188_3.xlsx", "issue_194_2.xlsx",
-              "issue_188_2.xlsx"}          # thorough tier only (size of the projection)
+BIG_CORPUS = {"aaa_large.xlsx", "issue_216.xlsx", "issue_233.xlsx", "issue_188_3.xlsx", "issue_194_2.xlsx"}
+# thorough tier only (20 000 .. 300 000 cells: the projection of one generation is up to 25 MB); they are driven and
+# validated one at a time, two generations per chain, with a larger TLC heap
 SPECIAL = set("&<>\"'")
 
 
@@ -53,10 +56,11 @@ NS_REL = "http://schemas.openxmlformats.org/officeDocument/2006/relationships"
 NS_PKG = "http://schemas.openxmlformats.org/package/2006/relationships"
 
 
-def build_xlsx(f, code_name="", text_map=None):
+def build_xlsx(f, code_name="", text_map=None, shared_rows=0):
     """bytes of a minimal, valid xlsx package for a file of the bounded model (written with string templates and
     zipfile: shares nothing with the library).  Cell format 1 duplicates cell format 0 (it only adds the attribute
-    pivotButton, which the library does not model), cell format 2 is a bold font."""
+    pivotButton, which the library does not model), cell format 2 is a bold font.  shared_rows = n > 0 puts a shared
+    formula into column C of rows 1..n (master C1 with text and ref, the others only with si)."""
     text_map = text_map or {}
     sheets = f["sheets"]
     ct = ['<?xml version="1.0" encoding="UTF-8" standalone="yes"?>',
@@ -120,6 +124,9 @@ def build_xlsx(f, code_name="", text_map=None):
                     out.append(f'<c{a}><v>{c["v"]}</v></c>')
                 else:
                     out.append(f'<c{a}/>')
+            if rn <= shared_rows:
+                out.append(f'<c r="C{rn}"><f t="shared" ref="C1:C{shared_rows}" si="0">A1+1</f><v>{rn}</v></c>' if rn == 1 else
+                           f'<c r="C{rn}"><f t="shared" si="0"/><v>{rn}</v></c>')
             out.append('</row>')
         out.append('</sheetData></worksheet>')
         parts[f"xl/worksheets/sheet{i + 1}.xml"] = "".join(out)
@@ -313,6 +320,19 @@ def rand_edit(rng, ncells_hint=50):
     return ed
 
 
+CLASSES = ["text", "num", "bool", "err", "rich", "blank", "formula", "master", "child", "link"]
+
+
+def class_edits(rng, nsheets=8):
+    """one edit per cell class (the driver picks a cell of that class on the chosen sheet, if there is one)"""
+    out = []
+    for cl in CLASSES:
+        ed = rand_edit(rng)
+        ed.update({"mode": "class", "class": cl, "si": rng.randint(0, nsheets - 1)})
+        out.append(ed)
+    return out
+
+
 def channel_fixture():
     """One workbook with an XML-special text in every text channel of MC_Channels (always part of the run)."""
     t = "a&b<c>d\"e'f " + DEEP
@@ -406,12 +426,16 @@ def corpus_files(thorough):
 
 
 def kf_exemplars():
-    """files built here that always exercise the open findings which do not depend on the corpus"""
+    """files built here that always exercise the open findings which do not depend on the corpus: a sheet with a code
+    name in a workbook without macros (C04-KF2), an edit of the master cell of a shared formula (C04-KF4)"""
     f = {"x0": "X0", "xfs": ["X0", "S1"], "sst": ["a", "a&b"], "extra": [], "rid": "o",
          "sheets": [{"cells": [{"r": 1, "c": 1, "t": "s", "v": 2, "f": "", "xf": 2}, {"r": 2, "c": 1, "t": "", "v": "", "f": "", "xf": 1}],
-                     "rows": [{"r": 1, "ht": "0", "xf": -1}, {"r": 2, "ht": "0", "xf": -1}]}]}
-    return [{"src": {"kind": "hex", "hex": build_xlsx(f, code_name="Code & <Name>").hex(), "name": "kf2-code-name"}, "gens": 3,
-             "light": False, "edit": [{"si": 0, "mode": "existing", "pick": 0, "r": 1, "c": 1, "k": "text", "v": "edited & <ok>", "b": ""}],
+                     "rows": [{"r": 1, "ht": "0", "xf": -1}, {"r": 2, "ht": "0", "xf": -1}, {"r": 3, "ht": "0", "xf": -1}]}]}
+    return [{"src": {"kind": "hex", "hex": build_xlsx(f, code_name="Code & <Name>", shared_rows=3).hex(), "name": "kf2-kf4-built-file"},
+             "gens": 3, "light": False,
+             "edit": [{"si": 0, "mode": "at", "pick": 0, "r": 1, "c": 1, "k": "text", "v": "edited & <ok>", "b": ""},
+                      {"si": 0, "mode": "at", "pick": 0, "r": 1, "c": 3, "k": "num", "v": "", "b": bits(42.0)},     # the master
+                      {"si": 0, "mode": "at", "pick": 0, "r": 2, "c": 3, "k": "text", "v": "a child: harmless", "b": ""}],
              "family": "kf"}]
 
 
@@ -424,12 +448,24 @@ def gen_cases(chk):
                   "family": "channels"})
     cases.append({"src": {"kind": "gen", "wb": channel_fixture()}, "gens": 3, "light": True, "edit": [rand_edit(rng)], "family": "channels"})
     ncor = 0
+    big = []
     for name, path in corpus_files(not quick):
-        nedit = 1 if quick else (2 if name in BIG_CORPUS else 6)
-        cases.append({"src": {"kind": "corpus", "path": path, "name": name}, "gens": 3, "light": False,
-                      "edit": [rand_edit(rng) for _ in range(nedit)], "family": "corpus"})
         ncor += 1
-        if not quick and name not in BIG_CORPUS:
+        if name in BIG_CORPUS:
+            big.append({"src": {"kind": "corpus", "path": path, "name": name}, "gens": 2, "light": False,
+                        "edit": [rand_edit(rng)], "family": "corpus-big"})
+            continue
+        if quick:
+            groups = [[rand_edit(rng)]]
+        else:
+            ce = class_edits(rng) + class_edits(rng, 1)
+            groups = [[rand_edit(rng) for _ in range(4)]] + [ce[i:i + 5] for i in range(0, len(ce), 5)]
+        if name == "aaa.xlsx":       # W6 of the second sheet is the master of a shared formula (W6:W14): C04-KF4
+            groups[0].append({"si": 1, "mode": "at", "pick": 0, "r": 6, "c": 23, "k": "text", "v": "over the master", "b": ""})
+        for edits in groups:
+            cases.append({"src": {"kind": "corpus", "path": path, "name": name}, "gens": 3, "light": False,
+                          "edit": edits, "family": "corpus"})
+        if not quick:
             cases.append({"src": {"kind": "corpus", "path": path, "name": name}, "gens": 3, "light": True,
                           "edit": [rand_edit(rng)], "family": "corpus"})
     r = vlib.run_tlc("MC_Resave", "MC_Resave_replay.cfg", workers=4, coverage=False, timeout=1800)
@@ -442,19 +478,20 @@ def gen_cases(chk):
             seen.add(key)
             reps.append(rp)
     total = len(reps)
-    if quick and len(reps) > 400:
-        reps = rng.sample(reps, 400)
+    if quick and len(reps) > 600:
+        reps = rng.sample(reps, 600)
     ntlc = len(reps)
     cases += [from_tlc(rp, rng) for rp in reps]
-    ngen = 120 if quick else 2500
+    ngen = 250 if quick else 2500
     for k in range(ngen):
         cases.append({"src": {"kind": "gen", "wb": rand_wb(rng, rng.choice([3, 8, 20, 40]))}, "gens": 3, "light": rng.random() < 0.3,
-                      "edit": [rand_edit(rng) for _ in range(1 if quick else 2)], "family": "generated"})
-    chk.extra["cases"] = {"corpus_files": ncor, "tlc_model_files": ntlc, "of_all_tlc_behaviours": total, "generated_workbooks": ngen,
+                      "edit": [rand_edit(rng)] if quick else [rand_edit(rng)] + rng.sample(class_edits(rng, 3), 2),
+                      "family": "generated"})
+    chk.extra["cases"] = {"corpus_files": ncor, "of_which_large": len(big), "tlc_model_files": ntlc, "of_all_tlc_behaviours": total, "generated_workbooks": ngen,
                           "fixtures": 3}
-    for i, c in enumerate(cases):
+    for i, c in enumerate(cases + big):
         c["case"] = i
-    return cases
+    return cases, big
 
 
 # ---------------------------------------------------------------------------------------------------------------------
@@ -500,8 +537,11 @@ def describe_factory(side):
 
 def judge(chk, cases, tag="c04"):
     t0 = time.time()
-    big = any(c["src"].get("name") in BIG_CORPUS for c in cases)
-    raw = vlib.run_cases("resave", cases, timeout=900 if big else 120, jobs=6)
+    raw = vlib.run_cases("resave", cases, timeout=900, jobs=6)
+    for ci, evs in enumerate(raw):
+        if evs and evs[0].get("a") == "Fatal" and evs[0].get("outcome") == "timeout":
+            # (a hang is not what this property is about, and a slow machine must never become a verdict)
+            raise vlib.ToolError(f"driver timed out on case {ci} ({cases[ci]['src'].get('name') or cases[ci]['src']['kind']})")
     side = {}
     events = project(raw, side)
     t1 = time.time()
@@ -517,6 +557,35 @@ def judge(chk, cases, tag="c04"):
     vlib.log(f"[c04] {tag}: {len(cases)} cases driven + projected in {t1 - t0:.1f}s, {out['events']} events validated in "
              f"{time.time() - t1:.1f}s, {len(out['kf'])} known-finding hits, {len(first)} rejected")
     return events, side
+
+
+def judge_big(chk, case):
+    """One large corpus file: driven, projected and validated on its own (one TLC instance with a 12 GB heap); only
+    a summary of its events is kept."""
+    t0 = time.time()
+    raw = vlib.run_cases("resave", [case], timeout=3000, jobs=1)
+    if raw[0] and raw[0][0].get("a") == "Fatal" and raw[0][0].get("outcome") == "timeout":
+        raise vlib.ToolError(f"driver timed out on {case['src']['name']}")
+    side = {}
+    events = project(raw, side)
+    path = os.path.join(vlib.WORK, f"trace-c04big-{os.getpid()}.ndjson")
+    vlib.write_ndjson(path, events[0])
+    try:
+        v = vlib.validate_file("Trace_Resave", "Trace_Resave.cfg", path, chk.open_ids, timeout=7200, heap="12g")
+    finally:
+        if os.path.exists(path):
+            os.remove(path)
+    out = {"mismatch": [(0, l - 1, d) for l, d in v.mismatches], "kf": [(fid, 0, l - 1) for fid, l in v.kf],
+           "events": len(events[0]), "states": v.states, "chunks": 1}
+    for _ci, off, detail in out["mismatch"]:
+        if detail.startswith('<<"gen"'):
+            raise vlib.ToolError(f"generator / protocol out of line ({case['src']['name']}, event {off}): {detail[:600]}")
+    ncells = [sum(len(sh["cells"]) for sh in e["obs"]["sheets"]) for e in events[0] if "obs" in e]
+    slim = [[{k: x for k, x in e.items() if k not in ("obs", "file")} for e in events[0]]]
+    chk.process_validation(out, [case], slim, "resave", describe_factory(side))
+    vlib.log(f"[c04] {case['src']['name']}: {len(slim[0])} events, {max(ncells) if ncells else 0} cells per generation, "
+             f"{len(out['mismatch'])} mismatches, {time.time() - t0:.1f}s")
+    return len(slim[0]) >= 4
 
 
 def taken(r, action):
@@ -543,8 +612,9 @@ def run(chk):
         expect_refuted(chk, "MC_Channels", "MC_Channels_deviant.cfg", "DriftFree",
                        "the configuration 'write Esc, read Id' of the tree before commit 5eeb38a")
         expect_refuted(chk, "MC_Channels", "MC_Channels_rawwriter.cfg", "WrittenSafe", "a writer that does not escape")
-    cases = gen_cases(chk)
+    cases, big = gen_cases(chk)
     events, side = judge(chk, cases)
+    bigok = [c["src"]["name"] for c in big if judge_big(chk, c)]
     # measurement: which text channels were exercised with XML-special characters (vacuity guard)
     seen = {c: set() for c in CHANNELS}
     for ci, evs in enumerate(events):
@@ -557,13 +627,17 @@ def run(chk):
     if missing:
         raise vlib.ToolError("text channels never exercised with an XML-special character: " + ", ".join(missing))
     chk.extra["channels_exercised_distinct_special_texts"] = {c: len(v) for c, v in seen.items()}
-    chk.evaluations = len(cases)
+    chk.extra["corpus_files_the_library_rejects"] = sorted(
+        cases[ci]["src"]["name"] for ci, evs in enumerate(events)
+        if cases[ci]["family"] == "corpus" and evs and evs[0].get("outcome") == "unreadable")
+    chk.evaluations = len(cases) + len(big)
     keys = set()
     for ci, c in enumerate(cases):
         if len(events[ci]) >= 4:                     # at least Load + two generations recorded
             src = c["src"]
-            keys.add(json.dumps([src.get("name"), src.get("wb"), src.get("hex", "")[:0] or hash(src.get("hex", "")), c["edit"], c["light"]],
-                                sort_keys=True, default=str))
+            keys.add(hashlib.sha1(json.dumps([src.get("name"), src.get("wb"), src.get("hex", ""), c["edit"], c["light"]],
+                                                 sort_keys=True).encode()).hexdigest())
+    keys.update(n + " (large)" for n in bigok)
     chk.nontrivial = keys
     chk.rule = ("a case is one original file (corpus file / workbook generated through the public API with XML-special and "
                 "non-ASCII text in every text channel / foreign file built from a TLC behaviour of MC_Resave) driven through load, "
